@@ -278,10 +278,17 @@ class OpGen:
                 else:
                     sels.append("__typename")
                     self.feats.add("typename.explicit")
+            poss = self.possible(t)
+            other_iface = None
+            if "frag.inline.on_interface" in self.dirty and rng.random() < 0.7:
+                cands = [i for i in self.schema.type_map.values() if isinstance(i, GraphQLInterfaceType) and i is not t and any(i in o.interfaces for o in poss)]
+                if cands:
+                    other_iface = rng.choice(cands)
             if isinstance(t, GraphQLInterfaceType):
                 for fname in self.object_fields(t, depth):
+                    if other_iface is not None and fname not in other_iface.fields and rng.random() < 0.8:
+                        continue  # fields the other interface lacks mostly end in the listed ParsingError; keep most such cases generating
                     sels.append(self.field(t, fname, depth))
-            poss = self.possible(t)
             chosen = rng.sample(poss, rng.randrange(0, len(poss) + 1)) if poss else []
             for ot in chosen:
                 fs = self.object_fields(ot, depth)
@@ -291,15 +298,12 @@ class OpGen:
                     inner = " ".join(self.field(ot, f, depth) for f in fs)
                 sels.append("... on %s%s { %s }" % (ot.name, self.fragment_directive(), inner))
                 self.feats.add("frag.inline.on_object")
-            if isinstance(t, GraphQLInterfaceType) and "frag.inline.on_interface" in self.dirty and rng.random() < 0.5:
-                sub_ifaces = [i for i in self.schema.type_map.values() if isinstance(i, GraphQLInterfaceType) and i is not t and any(
-                    i in o.interfaces for o in poss)]
-                if sub_ifaces:
-                    it = rng.choice(sub_ifaces)
-                    fs = self.object_fields(it, 0)
-                    if fs:
-                        sels.append("... on %s { %s }" % (it.name, " ".join(self.field(it, f, 0) for f in fs)))
-                        self.feats.add("frag.inline.on_interface")
+            if other_iface is not None:
+                it = other_iface
+                fs = self.object_fields(it, 0)
+                if fs:
+                    sels.append("... on %s { %s }" % (it.name, " ".join(self.field(it, f, 0) for f in fs)))
+                    self.feats.add("frag.inline.on_interface")
             if not sels:
                 sels.append("__typename")
                 self.feats.add("typename.explicit")
